@@ -71,6 +71,21 @@ SumSeq(s) == IF s = <<>> THEN 0 ELSE Head(s) + SumSeq(Tail(s))
 Iota(n) == [i \in 1..n |-> i - 1]
 
 (***************************************************************************)
+(* float32 precision on binary64 patterns <<c3,c2,c1,c0>> (finite, normal, *)
+(* |x| within the float32 range).  A float32 has the low 29 mantissa bits  *)
+(* clear; the two float32 neighbours of x are its truncation and the next  *)
+(* pattern 2^29 further from zero.                                         *)
+(***************************************************************************)
+IsF32(b) == b[4] = 0 /\ b[3] % 8192 = 0
+Trunc32(b) == <<b[1], b[2], b[3] - (b[3] % 8192), 0>>
+Next32(b) ==
+    LET t == Trunc32(b) IN
+    IF t[3] + 8192 < 65536 THEN <<t[1], t[2], t[3] + 8192, 0>>
+    ELSE IF t[2] + 1 < 65536 THEN <<t[1], t[2] + 1, 0, 0>>
+    ELSE <<t[1] + 1, 0, 0, 0>>
+Near32(b) == IF IsF32(b) THEN {b} ELSE {Trunc32(b), Next32(b)}
+
+(***************************************************************************)
 (* "The header describes the body that follows."                           *)
 (***************************************************************************)
 PropNames(f) == {f.vprops[i].n : i \in DOMAIN f.vprops}
@@ -151,12 +166,29 @@ Representable(f, mode, D) ==
     /\ mode = "bits" => \A i \in DOMAIN f.vprops : IsFloatT(Canon(f.vprops[i].t))
     /\ (\E i \in DOMAIN f.vprops : Canon(f.vprops[i].t) = "uchar") => D % 255 = 0
 
-ColVals(f, names, mode, D) ==
-    [r \in 1..f.nv |-> [k \in 1..Len(names) |-> Val(ColType(f, names[k]), f.vrecs[r][Col(f, names[k])], mode, D)]]
+\* raw = TRUE is the VARIANT in which single 8-bit scalars keep their raw value 0..255 (what the
+\* library's ASCII reader does, pinned by its tests; used only to classify that known deviation)
+ColVals(f, names, mode, D, raw) ==
+    [r \in 1..f.nv |-> [k \in 1..Len(names) |->
+        LET ct == ColType(f, names[k])
+            c == f.vrecs[r][Col(f, names[k])]
+        IN IF raw /\ ct = "uchar" /\ Len(names) = 1 THEN c * D ELSE Val(ct, c, mode, D)]]
 
-DenoteAttrs(f, mode, D) ==
-    {[n |-> g.a, ar |-> Len(GNames(f, g)), data |-> ColVals(f, GNames(f, g), mode, D)] : g \in FormedGroups(f)}
-    \cup {[n |-> p, ar |-> 1, data |-> ColVals(f, <<p>>, mode, D)] : p \in PropNames(f) \ Claimed(f)}
+\* a denoted attribute also carries the canonical type of each component (ft)
+ColTypes(f, names) == [k \in 1..Len(names) |-> ColType(f, names[k])]
+\* (no vertex, no content: polyform meshes cannot hold an attribute without data)
+DenoteAttrsV(f, mode, D, raw) ==
+    IF f.nv = 0 THEN {} ELSE
+    {[n |-> g.a, ar |-> Len(GNames(f, g)), data |-> ColVals(f, GNames(f, g), mode, D, raw),
+      ft |-> ColTypes(f, GNames(f, g))] : g \in FormedGroups(f)}
+    \cup {[n |-> p, ar |-> 1, data |-> ColVals(f, <<p>>, mode, D, raw), ft |-> ColTypes(f, <<p>>)] :
+            p \in PropNames(f) \ Claimed(f)}
+DenoteAttrs(f, mode, D) == DenoteAttrsV(f, mode, D, FALSE)
+
+\* names of the scalar attributes that stem from an 8-bit property
+UCharScalarAttrs(f) ==
+    {p \in PropNames(f) \ Claimed(f) : ColType(f, p) = "uchar"}
+    \cup {g.a : g \in {h \in FormedGroups(f) : Len(GNames(f, h)) = 1 /\ ColType(f, h.ns[1]) = "uchar"}}
 
 IdxNames == {"vertex_indices", "vertex_index"}
 HasIdxList(f) == \E p \in DOMAIN f.flists : f.flists[p].n \in IdxNames
@@ -188,18 +220,21 @@ DenoteIdx(f) ==
 DenoteUV(f) ==
     IF f.face /\ HasUvList(f) THEN FlattenSeq([r \in 1..f.nf |-> FanUV(f.frecs[r][UvListPos(f)])]) ELSE <<>>
 
-Denote(f, mode, D) ==
+DenoteV(f, mode, D, raw) ==
     [topo |-> IF f.face THEN "triangle" ELSE "point",
      idx |-> DenoteIdx(f),
-     attrs |-> DenoteAttrs(f, mode, D),
+     attrs |-> DenoteAttrsV(f, mode, D, raw),
      cuv |-> DenoteUV(f),
+     uvt |-> IF f.face /\ HasUvList(f) THEN Canon(f.flists[UvListPos(f)].lt) ELSE "float",
      hasuv |-> f.face /\ HasUvList(f) /\ f.nf > 0]
+Denote(f, mode, D) == DenoteV(f, mode, D, FALSE)
 
 (***************************************************************************)
 (* Meshes and their corner view.                                           *)
 (***************************************************************************)
 \* pm: a projected real mesh [topo, idx, attrs (sequence), exact]
-MeshOf(pm) == [topo |-> pm.topo, idx |-> pm.idx, attrs |-> Range(pm.attrs), cuv |-> <<>>, hasuv |-> FALSE]
+MeshOf(pm) == [topo |-> pm.topo, idx |-> pm.idx, attrs |-> {a \in Range(pm.attrs) : a.data # <<>>},
+               cuv |-> <<>>, hasuv |-> FALSE]
 
 HasA(m, n, ar) == \E a \in m.attrs : a.n = n /\ a.ar = ar
 AttrOf(m, n, ar) == CHOOSE a \in m.attrs : a.n = n /\ a.ar = ar
@@ -217,37 +252,49 @@ WellFormedMesh(m) ==
     /\ \A a \in m.attrs : \A k \in DOMAIN m.idx : m.idx[k] >= 0 /\ m.idx[k] < Len(a.data)
     /\ m.topo = "triangle" => Len(m.idx) % 3 = 0
 
+\* A decoded real r against the cell value c of a property of type t.  An ascii token of a
+\* float property is kept as the decimal's double; the property holds a float32, so the
+\* decoded value may be either float32 neighbour (or the double itself).
+ValMatch(t, r, c, mode) == r = c \/ (mode = "bits" /\ t = "float" /\ r \in Near32(c))
+CompType(d, n, ar, c) == IF IsFaceUV(d, n, ar) THEN d.uvt ELSE AttrOf(d, n, ar).ft[c]
+
+AttrMatch(m, d, key, mode) ==      \* vertex level: observed mesh m, denoted mesh d
+    LET a == AttrOf(m, key[1], key[2])
+        b == AttrOf(d, key[1], key[2])
+    IN /\ Len(a.data) = Len(b.data)
+       /\ \A v \in DOMAIN b.data : \A c \in 1..key[2] : ValMatch(b.ft[c], a.data[v][c], b.data[v][c], mode)
+CornerMatch(m, d, key, mode) ==    \* corner level
+    \A k \in 1..Len(d.idx) : \A c \in 1..key[2] :
+        ValMatch(CompType(d, key[1], key[2], c), CVal(m, key[1], key[2], k)[c], CVal(d, key[1], key[2], k)[c], mode)
+
 \* "loads to the mesh the file describes": vertex i carries record i; with
 \* per-corner texture coordinates the result is unwelded, so vertex numbers
 \* are not prescribed and corners are compared instead
-SameMesh(m, d) ==
-    IF d.hasuv THEN CornerView(m) = CornerView(d)
-    ELSE m.topo = d.topo /\ m.idx = d.idx /\ m.attrs = d.attrs
+SameMesh(m, d, mode) ==
+    /\ m.topo = d.topo
+    /\ AttrKeys(m) = AttrKeys(d)
+    /\ IF d.hasuv THEN Len(m.idx) = Len(d.idx) /\ \A key \in AttrKeys(d) : CornerMatch(m, d, key, mode)
+       ELSE m.idx = d.idx /\ \A key \in AttrKeys(d) : AttrMatch(m, d, key, mode)
 
 \* names of what differs (for reports)
-MeshDiff(m, d) ==
+MeshDiff(m, d, mode) ==
     (IF m.topo # d.topo THEN {"topo"} ELSE {})
     \cup (IF (IF d.hasuv THEN Len(m.idx) # Len(d.idx) ELSE m.idx # d.idx) THEN {"idx"} ELSE {})
     \cup {k[1] : k \in (AttrKeys(m) \ AttrKeys(d)) \cup (AttrKeys(d) \ AttrKeys(m))}
     \cup {k[1] : k \in {kk \in AttrKeys(m) \cap AttrKeys(d) :
-                    IF d.hasuv
-                    THEN Len(m.idx) = Len(d.idx) /\ \E c \in 1..Len(d.idx) : CVal(m, kk[1], kk[2], c) # CVal(d, kk[1], kk[2], c)
-                    ELSE AttrOf(m, kk[1], kk[2]).data # AttrOf(d, kk[1], kk[2]).data}}
+                    IF d.hasuv THEN Len(m.idx) = Len(d.idx) /\ ~CornerMatch(m, d, kk, mode)
+                    ELSE ~AttrMatch(m, d, kk, mode)}}
 
-(***************************************************************************)
-(* float32 precision on binary64 patterns <<c3,c2,c1,c0>> (finite, normal, *)
-(* |x| within the float32 range).  A float32 has the low 29 mantissa bits  *)
-(* clear; the two float32 neighbours of x are its truncation and the next  *)
-(* pattern 2^29 further from zero.                                         *)
-(***************************************************************************)
-IsF32(b) == b[4] = 0 /\ b[3] % 8192 = 0
-Trunc32(b) == <<b[1], b[2], b[3] - (b[3] % 8192), 0>>
-Next32(b) ==
-    LET t == Trunc32(b) IN
-    IF t[3] + 8192 < 65536 THEN <<t[1], t[2], t[3] + 8192, 0>>
-    ELSE IF t[2] + 1 < 65536 THEN <<t[1], t[2] + 1, 0, 0>>
-    ELSE <<t[1] + 1, 0, 0, 0>>
-Near32(b) == IF IsF32(b) THEN {b} ELSE {Trunc32(b), Next32(b)}
+\* two decoded reals agree up to the precision of a float32 (bits mode) / exactly (lattice)
+Close(a, b, mode) == a = b \/ (mode = "bits" /\ (b \in Near32(a) \/ a \in Near32(b)))
+\* names of the attributes on which two projected meshes disagree ("shape": topology / indices)
+ProjDiff(a, b, mode) ==
+    (IF a.topo # b.topo \/ a.idx # b.idx THEN {"shape"} ELSE {})
+    \cup {k[1] : k \in (AttrKeys(MeshOf(a)) \ AttrKeys(MeshOf(b))) \cup (AttrKeys(MeshOf(b)) \ AttrKeys(MeshOf(a)))}
+    \cup {k[1] : k \in {kk \in AttrKeys(MeshOf(a)) \cap AttrKeys(MeshOf(b)) :
+                    LET x == AttrOf(MeshOf(a), kk[1], kk[2]).data
+                        y == AttrOf(MeshOf(b), kk[1], kk[2]).data
+                    IN Len(x) # Len(y) \/ \E v \in DOMAIN x : \E c \in 1..kk[2] : ~Close(x[v][c], y[v][c], mode)}}
 
 (***************************************************************************)
 (* Writer contract (C04).  o = [w, unspec, props]; props a sequence of     *)
@@ -291,11 +338,12 @@ InBand(t, s, r, mode, D) ==
                              ELSE r >= 0 /\ r <= D                             \* not storable: any 8-bit value
            [] t = "int" -> IF s % D = 0 THEN r = s ELSE r - s < D /\ s - r < D
            [] OTHER -> r = s
-    ELSE CASE t = "float" -> r \in Near32(s)
+    ELSE CASE t = "float" -> r = s \/ r \in Near32(s)      \* more precision than a float32 is no loss
            [] t = "double" -> r = s
            [] OTHER -> FALSE
 
-KeptOK(src, res, o, key, mode, D) ==
+KeptOK(src, res, o, key, mode, D) ==      \* (no corner, nothing to keep)
+    Len(src.idx) > 0 =>
     /\ key \in AttrKeys(res)
     /\ \A k \in 1..Len(src.idx) : \A c \in 1..key[2] :
           InBand(StoredType(src, o, key[1], key[2]), CVal(src, key[1], key[2], k)[c], CVal(res, key[1], key[2], k)[c], mode, D)
@@ -310,8 +358,4 @@ RoundTripDiff(src, res, o, mode, D) ==
     IF ~ShapeOK(src, res) THEN {"shape"}
     ELSE {key[1] : key \in {kk \in MustKeep(src, o) : ~KeptOK(src, res, o, kk, mode, D)}}
 
-\* point clouds have no place for texture coordinates unless a property writer stores them
-\* (design gap: the options promise them, the layout rules have no property for them)
-PointTexCoordUnclaimed(src, o) ==
-    src.topo = "point" /\ HasA(src, "TexCoord", 2) /\ ~Claims(o, "TexCoord", 2) /\ EffUnspec(o)
 =============================================================================
